@@ -313,6 +313,11 @@ func CheckDoc(checks *int, fails *[]string, label string, ptr any, names []strin
 			*fails = append(*fails, fmt.Sprintf("%s: RuntimeDoc(%q) panicked: %v", label, names, r))
 		}
 	}()
+	// asked twice; the caller scribbles over the first answer in between (a returned slice is the caller's)
+	first, _ := d.RuntimeDoc(names...)
+	for i := range first {
+		first[i] = "scribbled by the caller"
+	}
 	got, gotOK := d.RuntimeDoc(names...)
 	same := gotOK == wantOK && len(got) == len(want)
 	if same {
@@ -327,6 +332,17 @@ func CheckDoc(checks *int, fails *[]string, label string, ptr any, names []strin
 	}
 	if !same {
 		*fails = append(*fails, fmt.Sprintf("%s: RuntimeDoc(%q) = (%q, %v), want (%q, %v)", label, names, got, gotOK, want, wantOK))
+	}
+}
+
+// AskDoc calls RuntimeDoc and discards the answer (for questions whose answer is not specified but which
+// must not disturb later ones).
+func AskDoc(ptr any, names ...string) {
+	defer func() { _ = recover() }()
+	if d, ok := ptr.(interface {
+		RuntimeDoc(names ...string) ([]string, bool)
+	}); ok {
+		_, _ = d.RuntimeDoc(names...)
 	}
 }
 
